@@ -30,7 +30,11 @@ def make_cases(seed, tier):
 def do_chunk(chunk):
     acc = common.Acc()
     w = rt.vw(FL)
+    # errno as some earlier, unrelated call left it: a successful hash must not depend on it
+    # (the first hash is made with a clean errno, the re-hashes with a stale one)
+    pre = (0, 2, 34)[len(chunk[0][3]) % 3]
     setup = [rt.obj_line(0, align=3), rt.obj_line(1, align=0, fill="f")]
+    setup2 = setup + ["preerrno %d" % pre]
     lines = [rt.crypt_line("crypt_rn", 0, p, s) for (_, _, p, s, _) in chunk]
     r1 = rt.run_resilient(w, setup, lines)
     # phase 2
@@ -65,7 +69,8 @@ def do_chunk(chunk):
             slot = (vi + ci) & 1
             lines2.append(rt.crypt_line("crypt_rn", slot, p, hs))
             idx.append((ci, vk, h, hs))
-    r2 = rt.run_resilient(w, setup, lines2) if lines2 else []
+    r2 = rt.run_resilient(w, setup2, lines2) if lines2 else []
+    w.run(["preerrno 0"], 30)
     for (ci, vk, h, hs), r, ln in zip(idx, r2, lines2):
         m, form, p, s, nz = chunk[ci]
         first = rt.crypt_line("crypt_rn", 0, p, s)
